@@ -205,6 +205,14 @@ func C19(c *core.Ctx) {
 
 	// R5 SetFlags
 	checkSetFlags(c)
+	// R6: "a flag seen by ... the control plane is the flag the other side set": the packet-count bits of a Volume
+	// Measurement follow the MNOP flag the SMF set in the URR's Measurement Information — the stored profile takes each
+	// flag from the accessor of its name and keeps it over an Update URR that does not carry the IE, and nothing but
+	// SetFlags writes the flag octet (C10 R3 / R2)
+	shareFrom(c, "C10", "R6", func(o *core.Obligation) bool {
+		return (o.Rule == "R3" && (strings.Contains(o.Key, "/R3/profile:") || strings.Contains(o.Key, "/R3/profile-update-if-present:"))) ||
+			(o.Rule == "R2" && strings.Contains(o.Key, "/R2/volume-flags-writer:"))
+	}, 10, "profile flags and flag-octet writers")
 }
 
 // accessorTests: fn returns (load recv.Flags) & mask != 0 on its single path.
@@ -401,8 +409,8 @@ func checkUnmarshal(c *core.Ctx, fn *ssa.Function, typ string, flags *types.Var,
 		if core.InstrDominates(st, r) {
 			c.Check("R3", "decode-ok-return:"+key, r.Pos(), core.IsNilConst(r.Results[0]), "successful decode returns nil")
 		} else {
-			c.Check("R3", "decode-short-return:"+key, r.Pos(), !core.IsNilConst(r.Results[0]) && !core.Reaches(r, call) && noReadBefore(r, b),
-				"too-short input returns an error before any octet is read")
+			c.Check("R3", "decode-short-return:"+key, r.Pos(), !core.IsNilConst(r.Results[0]) && !core.Reaches(r, call) && !core.Reaches(call, r) && noReadBefore(r, b),
+				"an error is returned only for a too-short payload, before any octet is read: every bit pattern of a long-enough IE is decoded, none is refused")
 		}
 	})
 }
